@@ -589,6 +589,9 @@ impl Engine for SessionEngine {
         let Program { model, inputs, candidates, .. } = gen::generate_with(&mut r, cf, true);
         let nthreads = if r.chance(1, 3) { 3 } else { 2 };
         let ncand = candidates.len().max(1);
+        // only values produced by single-output operators are fed as extra inputs (supplying one output of a
+        // multi-output operator whose other output is still needed is an ambiguous request)
+        let feedable: Vec<usize> = (0..candidates.len()).filter(|i| model.graph.nodes.iter().any(|n| n.outputs.len() == 1 && n.outputs[0] == candidates[*i].name)).collect();
         let mut threads = Vec::new();
         for _ in 0..nthreads {
             let n = r.urange(1, 4);
@@ -609,7 +612,7 @@ impl Engine for SessionEngine {
                     outputs,
                     owned_mask: if r.chance(1, 2) { 0 } else { r.next_u64() as u32 },
                     drop_input: r.below(4) as usize,
-                    feed: if r.chance(1, 5) { Some(r.below(ncand as u64) as usize) } else { None },
+                    feed: if !feedable.is_empty() && r.chance(1, 5) { Some(feedable[r.below(feedable.len() as u64) as usize]) } else { None },
                     pool: r.below(3) as u8,
                     pause: r.below(3) as u8,
                 });
